@@ -7,10 +7,21 @@ Proof: FP/Props/C05.lean.
    layer-permutation invariance of the LPs (T1), every solution can be re-indexed so that slot j contains the safe
    sequence handed to it (T2, from C01 walkcore_sound, C04 nonScc_once, C06 T3/T5/T6), hence the rows / bound changes /
    simplified product rows / appended subset constraints of `_apply_safety_optimizations` change nothing (T3, T4).
+ * the six safety flags of the DAG (path) models — on this tree `create_solver_and_paths` never calls
+   `_apply_safety_optimizations`, so the flags reach the LP in one way only: under
+   optimize_with_safety_as_subpath_constraints the safe lists assembled by __init__ join the subpath constraints. Proven
+   for every subset of the flags: without that flag the LP of kFlowDecomp / kPathCover / kLeastAbsErrors / kMinPathError is
+   term by term the option-free LP; with it, kPathCover (feasibility and minimum) and kFlowDecomp without given weights
+   (feasibility) are unchanged, because every appended list lies in one path of every solution (C06 T1/T2, C10
+   constraint_honoured; "every trusted edge is used" is derived from the cover rows / the flow rows; kFlowDecomp's flow-safe
+   paths, computed only when nothing is ignored: C02 kfd_exact + C06 excess_flow_safe) and C10 constraint_complete re-chooses
+   the r columns.
 Tie: K2 LP-dump equality of the Lean generators `kcovercLPS` / `kfdcLPS` with the REAL constructors built with random
 subsets of the safety flags ON (adapters kcoverc_safety, kfdc_safety; SCC numbering, antichain and the iteration order
 of the trusted set are captured from the real run; the contracts of the first two — the only hypotheses the `…_full`
-pipeline theorems make about them — are re-checked by direct search), plus the option-free encoders.
+pipeline theorems make about them — are re-checked by direct search), the same for the DAG generators `kfdLPS` /
+`kcoverLPS` / `klaeLPS` / `kmpeLPS` (adapters kfd_safety, kcover_safety, klae_safety, kmpe_safety: random subsets of ALL
+six DAG flags, so the tie breaks if the unreachable fixing routine is ever wired in), plus the option-free encoders.
 Oracle: metamorphic end-to-end runs (K5): the same input under sampled subsets of every documented option flag of every
 class must give the same solved status and the same objective as the all-off baseline.
 """
@@ -41,10 +52,27 @@ THEOREMS = ["FP.Props.C05.opt_preserved", "FP.Props.C05.sat_append", "FP.Props.C
             "FP.Props.C05.kfdc_safety_pipeline_preserves_feasibility_full",
             "FP.Props.C05.pipeline_data_sound_full",
             # non-vacuity (README graph)
-            "FP.Props.C05.readme_maxSafeSeqs", "FP.Props.C05.readme_data"]
+            "FP.Props.C05.readme_maxSafeSeqs", "FP.Props.C05.readme_data",
+            # DAG (path) models: the six safety flags, every subset
+            "FP.Props.C05.dag_safety_flags_lp_identical", "FP.Props.C05.dag_safety_fragment_shape",
+            "FP.Props.C05.dag_safety_lp_is_extended_input",
+            "FP.Props.C05.dag_safe_lists_in_layers",
+            "FP.Props.C05.dag_append_constraints", "FP.Props.C05.dag_drop_constraints",
+            "FP.Props.C05.dag_safety_options_preserve_optimum",
+            "FP.Props.C05.layer_perm_invariant_dag", "FP.Props.C05.layer_perm_invariant_kcover",
+            "FP.Props.C05.layer_perm_invariant_kfd",
+            "FP.Props.C05.kcover_uses_trusted", "FP.Props.C05.kfd_uses_trusted",
+            "FP.Props.C05.kcover_safety_options_preserve_optimum",
+            "FP.Props.C05.kfd_safety_options_preserve_feasibility",
+            "FP.Props.C05.kfd_flow_safe_paths_in_layers",
+            # non-vacuity (diamond of C03, DAG of C09)
+            "FP.Props.C05.diamond_safeLists", "FP.Props.C05.diamond_pipeline", "FP.Props.C05.diamond_domain",
+            "FP.Props.C05.inp2_domain", "FP.Props.C05.inp2_safeLists",
+            "FP.Props.C05.diamond_externalOK", "FP.Props.C05.diamond_safeLists_fs"]
 IMPORTS = ["FP.Props.C05"]
 K2_ADAPTERS = ["kfd", "kcover", "kfdc"]
 K2_SAFETY_ADAPTERS = ["kcoverc_safety", "kfdc_safety"]
+K2_DAG_SAFETY_ADAPTERS = ["kfd_safety", "kcover_safety", "klae_safety", "kmpe_safety"]
 RULE = ("for every class that accepts optimization_options: random inputs; the all-flags-off run is the reference; quick tier "
         "samples single flags plus random subsets, thorough tier more inputs and the full cross product on small inputs. A case "
         "= (class, input, flag set); non-trivial iff the flag set is non-empty and the model is constructible with it.")
@@ -63,8 +91,41 @@ MODEL_SCOPE = ("PROVEN (Lean, full): abstract optimum preservation under added c
                "captured antichain is pairwise unreachable in the expanded condensation (C06 `incompatible_sound`; C17 "
                "`antichain_sound` proves the second for the extraction; both re-checked by direct search in every real "
                "construction, histogram label t6_contracts). The older `…_pipeline` forms under AntichainHyp / "
-               "NoSharedParallel are kept; NoSharedParallel is not a property of the maximal safe sequences. ORACLE-ONLY (metamorphic runs): the DAG models' options (safe "
-               "paths / sequences, zero edges, subpath-constraint variants, largest antichain), flow-safe paths, greedy, "
+               "NoSharedParallel are kept; NoSharedParallel is not a property of the maximal safe sequences. For the DAG (path) models' six safety "
+               "flags (optimize_with_safe_paths, optimize_with_safe_sequences, optimize_with_subpath_constraints_as_safe_sequences, "
+               "optimize_with_safe_zero_edges, optimize_with_safety_as_subpath_constraints, "
+               "optimize_with_safety_from_largest_antichain), every subset (model FP/Model/PathSafetyRows.lean = the real LPs by "
+               "K2 with random subsets of all six flags ON): (a) without optimize_with_safety_as_subpath_constraints the LP of "
+               "kFlowDecomp / kPathCover / kLeastAbsErrors / kMinPathError is term by term the LP built without options "
+               "(dag_safety_flags_lp_identical), with it the option-free LP of the input with the safe lists appended to the "
+               "subpath constraints; (b) kPathCover: feasibility and minimum unchanged, kFlowDecomp without given weights: "
+               "feasibility unchanged (kcover_/kfd_safety_options_…), derived from C06 T1 (safe_paths_univocal), C06 T2 "
+               "(bridge_sound_graph, no assumption on the order in which a constraint lists its edges), C10 constraint_honoured / "
+               "constraint_complete, with 'every trusted edge is used by some path of every solution' derived from the cover rows "
+               "resp. the flow rows; generic form for any DAG model whose class-specific part does not mention the r columns. "
+               "Hypotheses: well-formed acyclic user graph; ConstraintDomain = subpath constraints made of graph edges, coverage "
+               "fraction <= 1 (the constructor validates it only when the user passes constraints, the appended lists use it "
+               "too), edge lengths >= 0 and > 0 on the user's constraints when they are covered completely by length (a "
+               "zero-length edge is not forced, the sequence computed from the constraint would not be safe); the appended lists "
+               "share the user's coverage fraction, which only weakens them. kFlowDecomp's flow-safe paths "
+               "(external_safe_paths, class default) are covered too: since fix 3d0fcdd they are computed only when nothing is "
+               "ignored (model kfdExternalOK, which the driver op lp.kfd.safety re-checks on every real construction: no ignored "
+               "edge, every captured list is reported by the modelled scan flowSafePaths on the captured greedy decomposition), "
+               "and then they lie in some path of every solution (kfd_flow_safe_paths_in_layers: C02 kfd_exact turns a solution "
+               "into a flow decomposition of the whole flow, C06 excess_flow_safe does the rest); with ignored edges that is false "
+               "— the defect repaired by 3d0fcdd, kept as corpus case corpus/C05/flow_safe_ignored_edges.json and exercised by the "
+               "suite K5.flow_safe_paths_with_ignored_edges (edge and node origin). Further hypotheses of the kFlowDecomp theorem: "
+               "no additional ends (the class has none), flow attributes on graph edges. "
+               "OBSERVATION (performance, outside the 20 properties): on "
+               "this tree the x=1 / zero-edge fixes of the DAG models are unreachable — create_solver_and_paths calls "
+               "_apply_safety_optimizations_fix_zero_edges, which returns at its hasattr(self, 'paths_to_fix') guard, and never "
+               "_apply_safety_optimizations (which, called by hand, raises TypeError: stDAG.nodes_reaching is a dict property and "
+               "stDAG has no nodes_reachable); edges_set_to_zero/one stay empty, the simplified product rows of kFlowDecomp / "
+               "kLeastAbsErrors / kMinPathError are never emitted, optimize_with_safe_zero_edges and "
+               "optimize_with_safety_from_largest_antichain have no effect (histogram labels paths_to_fix:absent, fix_rows=0, "
+               "antichain_calls=0 of the K2 suites; a wired-in routine would break the K2 tie). ORACLE-ONLY (metamorphic runs): "
+               "the DAG models with given weights, the error models' feasibility/optimum under appended safe lists (their trusted "
+               "set is a user parameter), flow-safe paths, greedy, "
                "min-generating-set and subgraph-scanning lower bounds, guessed weights, kFlowDecompCycles with given_weights "
                "(rows weights_i = w_i are not layer-symmetric; only used as a heuristic upper bound by MinFlowDecompCycles), "
                "kLeastAbsErrorsCycles / kMinPathErrorCycles instances, node-weighted modes.")
@@ -260,6 +321,7 @@ def gen_inst(rng, cls):
 
 def run(ctx):
     rng = ctx.rng
+    corpus_cases(ctx)
     k2.run_k2(ctx, K2_ADAPTERS, ctx.n(20, 300))
     k2.run_k2(ctx, K2_SAFETY_ADAPTERS, ctx.n(100, 450))
     # the hypotheses of the `…_full` theorems about the captured SCC numbering / antichain are re-checked by direct
@@ -269,6 +331,17 @@ def run(ctx):
         if h.get("t6_contracts:VIOLATED"):
             ctx.disagree("K2." + name, {"t6_contracts": "VIOLATED", "count": h["t6_contracts:VIOLATED"]}, None, None,
                          note="the captured antichain is not pairwise unreachable in the expanded condensation")
+    k2.run_k2(ctx, K2_DAG_SAFETY_ADAPTERS, ctx.n(100, 450))
+    # the DAG model says: nothing is ever fixed (paths_to_fix absent, no fix rows, no antichain computed). Should the
+    # unreachable routine get wired in, the LP dumps differ (disagreement above); the labels make the reason visible
+    for name in K2_DAG_SAFETY_ADAPTERS:
+        h = ctx.rep.suite("K2." + name)["histogram"]
+        wired = {k: v for k, v in h.items() if k in ("fix_rows>0", "zero>0", "one>0", "antichain_calls>0")
+                 or (k.startswith("paths_to_fix:") and k != "paths_to_fix:absent")}
+        if wired:
+            ctx.disagree("K2." + name, {"safety_fixes_reached": wired}, None, None,
+                         note="_apply_safety_optimizations ran in a DAG model: FP/Model/PathSafetyRows.lean no longer mirrors the code")
+    flow_safe_ignored_cases(ctx)
     per = ctx.n(4, 16)
     first = True
     for cls in models.ALL_CLASSES:
@@ -292,6 +365,67 @@ def rounding_cases(ctx, suite="K5.greedy_vs_milp_thresholds"):
             inst["starts"], inst["ends"], inst["ignore"] = [], [], []
             if inst.get("constraints"):
                 metamorphic(ctx, inst, [["optimize_with_greedy"]], suite=suite)
+
+
+def defaults_plus(ctx, inst, ref, plus, suite):
+    """the class defaults (flow-safe paths, safe paths, ... as the classes ship them) plus the flags `plus` against the
+    all-off outcome `ref`"""
+    if ref[0] == "inconclusive":
+        return
+    got = outcome(ctx.fp, inst, {f: True for f in plus})
+    ctx.rep.cov["oracle_evaluations"] += 1
+    ctx.rep.count(suite, [inst, "defaults+" + "+".join(sorted(plus))], nontrivial=got[0] not in ("rejected", "inconclusive"),
+                  hist=[inst["cls"], "defaults+", got[0]] + [f"flag:{f}" for f in plus])
+    if got[0] not in ("rejected", "inconclusive") and not same(ref, got):
+        ctx.violation(f"{inst['cls']}: with default options plus {sorted(plus)} the outcome is {got}, with all options off it is {ref}",
+                      dict(inst, flags=["<defaults>"] + sorted(plus), baseline=list(ref), outcome=list(got)),
+                      site=f"{inst['cls']}:defaults+" + "+".join(sorted(plus)))
+
+
+def corpus_cases(ctx, suite="corpus"):
+    """stored inputs that once exposed something (corpus/C05/*.json), replayed first"""
+    from fpv import common
+    for pth in sorted((common.CORPUS / "C05").glob("*.json")):
+        c = json.load(open(pth))
+        ref = metamorphic(ctx, c["instance"], c.get("flag_sets", []), suite=suite)
+        if c.get("also_defaults_plus"):
+            defaults_plus(ctx, c["instance"], ref, c["also_defaults_plus"], suite)
+
+
+FS_IGNORED_FLAGSETS = [["optimize_with_flow_safe_paths", "optimize_with_safety_as_subpath_constraints"],
+                       ["optimize_with_flow_safe_paths", "optimize_with_safety_as_subpath_constraints",
+                        "optimize_with_subpath_constraints_as_safe_sequences"],
+                       ["optimize_with_safe_paths", "optimize_with_safety_as_subpath_constraints"],
+                       ["optimize_with_safe_sequences", "optimize_with_safety_as_subpath_constraints",
+                        "optimize_with_subpath_constraints_as_safe_sequences"]]
+
+
+def flow_safe_ignored_cases(ctx, suite="K5.flow_safe_paths_with_ignored_edges"):
+    """flow-decomposition classes WITH ignored elements that carry flow (edge and node origin): the safe lists —
+    flow-safe paths (the class default; since fix 3d0fcdd only computed when nothing is ignored), safe paths, safe
+    sequences — appended as subpath constraints versus all options off. This is the hypothesis `kfdExternalOK` of
+    kfd_safety_options_preserve_feasibility on the real code."""
+    rng = ctx.rng
+    for cls in ("kFlowDecomp", "MinFlowDecomp"):
+        for it in range(ctx.n(8, 48)):
+            node = it % 3 == 2
+            if node:
+                inst = models.node_instance(rng, cls)
+                cand = list(inst["nodes"])
+            else:
+                inst = models.instance(rng, cls, features=False)
+                cand = [list(e) for e in inst["edges"]]
+            ign = [x for x in cand if rng.random() < 0.4]
+            if len(ign) == len(cand):
+                ign = ign[1:]
+            if not ign:
+                ign = [rng.choice(cand)] if len(cand) > 1 else []
+            inst["ignore"] = ign
+            inst["starts"], inst["ends"] = [], []
+            if cls == "kFlowDecomp":
+                inst["k"] = rng.randint(1, max(1, inst.get("planted_routes", inst.get("k", 2))))
+            ref = metamorphic(ctx, inst, FS_IGNORED_FLAGSETS, suite=suite)
+            defaults_plus(ctx, inst, ref, ["optimize_with_safety_as_subpath_constraints"], suite)
 
 
 def finding_case(ctx, inp):
